@@ -31,13 +31,39 @@ NAME_SWAP = {"min": "max", "max": "min", "minimum": "maximum", "maximum": "minim
              "context_dict": "loaded_dict", "voltage": "pilot", "pilot": "voltage", "_voltages": "_phase_angles", "_phase_angles": "_voltages"}
 
 
+MESSAGE_CALLS = {"warn", "_print", "print", "debug", "info", "warning"}
+
+
+def _message_only(n):
+    """sub-trees that only build a human-readable message (arguments of warnings.warn / print / an exception constructor,
+    f-strings): mutants there are equivalent for every property and are not generated"""
+    if isinstance(n, ast.JoinedStr):
+        return True
+    if isinstance(n, ast.Call):
+        nm = n.func.attr if isinstance(n.func, ast.Attribute) else (n.func.id if isinstance(n.func, ast.Name) else None)
+        if nm in MESSAGE_CALLS or (nm and (nm.endswith("Error") or nm.endswith("Exception") or nm.endswith("Warning"))):
+            return True
+    return False
+
+
+def _walk_code(st):
+    todo = [st]
+    while todo:
+        n = todo.pop()
+        yield n
+        for c in ast.iter_child_nodes(n):
+            if _message_only(c):
+                continue
+            todo.append(c)
+
+
 def _sites(fn):
     """[(kind, node, extra)] mutation sites inside a function (not nested defs' decorators/docstrings)."""
     out = []
     body = fn.body
     doc = body and isinstance(body[0], ast.Expr) and isinstance(body[0].value, ast.Constant) and isinstance(body[0].value.value, str)
     for st in (body[1:] if doc else body):
-        for n in ast.walk(st):
+        for n in _walk_code(st):
             if isinstance(n, ast.Compare):
                 for i, op in enumerate(n.ops):
                     if type(op) in CMP_FLIP:
@@ -73,7 +99,7 @@ def _sites(fn):
                 if isinstance(blk, list):
                     for i, s in enumerate(blk):
                         if isinstance(s, (ast.Assign, ast.AugAssign, ast.Expr, ast.Raise, ast.Return, ast.Delete)) and not (
-                                isinstance(s, ast.Expr) and isinstance(s.value, ast.Constant)):
+                                isinstance(s, ast.Expr) and (isinstance(s.value, ast.Constant) or _message_only(s.value))):
                             out.append(("del-stmt", n, (fld, i)))
     for i, s in enumerate(body):
         if i == 0 and doc:
@@ -132,6 +158,11 @@ def _apply(kind, node, extra):
     return None
 
 
+def _before(site):
+    kind, node, extra = site
+    return ast.unparse(node)[:60] if kind != "del-stmt" else ast.unparse(getattr(node, extra[0])[extra[1]])[:60]
+
+
 def generate(repo, funcs, cap_per_fn=400):
     """yield (mutant id, rel path, description, new module source) for every site in the given FuncInfos."""
     by_mod = {}
@@ -150,7 +181,7 @@ def generate(repo, funcs, cap_per_fn=400):
                 fn = list(ast.walk(tree))[idx[0]]
                 sites = _sites(fn)
                 kind, node, extra = sites[k]
-                before = ast.unparse(node)[:60] if kind != "del-stmt" else ast.unparse(getattr(node, extra[0])[extra[1]])[:60]
+                before = _before(sites[k])
                 if kind == "drop-not":
                     # replace `not X` by X: need the parent
                     done = False
@@ -175,8 +206,9 @@ def generate(repo, funcs, cap_per_fn=400):
                     compile(text, rel, "exec")
                 except Exception:
                     continue
-                mid = hashlib.sha1(f"{f.qual}|{kind}|{before}|{desc}".encode()).hexdigest()[:10]
-                yield mid, rel, f"{f.qual}: {kind} `{' '.join(before.split())}` ({desc})", text
+                occ = sum(1 for kk in range(k) if sites[kk][0] == kind and _before(sites[kk]) == before)      # same edit text at an earlier site
+                mid = hashlib.sha1(f"{f.qual}|{kind}|{before}|{desc}|{occ}".encode()).hexdigest()[:10]
+                yield mid, rel, f"{f.qual}: {kind} `{' '.join(before.split())}` ({desc})" + (f" #{occ + 1}" if occ else ""), text
 
 
 def _run(args):
